@@ -74,6 +74,16 @@ def fault_shard(spec, res):
                             '%s/%s' % pair))
                 continue
             was = before.inventories.get(pair)
+            # (a reshape may shrink an inventory below what consumers it
+            # does not mention hold there: over-commitment as the direct
+            # result of an inventory change, which C01 admits - only pairs
+            # whose inventory the request left alone, or on which it places
+            # something, are judged)
+            placed_here = any(
+                m.get(pair, 0) > 0
+                for m in (monitors.placed(req) or {}).values())
+            if was != inv and not placed_here:
+                continue
             if monitors.capacity_cmp(inv, used) == 'over' and not (
                     was is not None and
                     monitors.capacity_cmp(was, ub.get(pair, 0)) == 'over'):
